@@ -460,7 +460,7 @@ class Interp:
             return ("builtin", "groupby")
         if isinstance(obj, tuple) and len(obj) == 2 and obj == ("pymodule", "operator") and name in ("attrgetter", "itemgetter", "methodcaller"):
             return ("builtin", name)
-        if isinstance(obj, tuple) and len(obj) == 2 and obj == ("pymodule", "itertools") and name in ("islice", "chain", "count", "zip_longest"):
+        if isinstance(obj, tuple) and len(obj) == 2 and obj == ("pymodule", "itertools") and name in ("islice", "chain", "count", "zip_longest", "repeat"):
             return ("builtin", name)
         if isinstance(obj, tuple) and len(obj) == 2 and obj == ("pymodule", "functools") and name in ("reduce", "partial"):
             return ("builtin", name)
@@ -983,7 +983,7 @@ class Interp:
             if mod is not None and n.id in mod.imports and mod.imports[n.id] == ("dataclasses", "astuple"):
                 return ("builtin", "astuple")
             if mod is not None and n.id in mod.imports and mod.imports[n.id][0] in ("itertools", "functools") \
-                    and mod.imports[n.id][1] in ("islice", "chain", "reduce", "count", "zip_longest", "groupby"):
+                    and mod.imports[n.id][1] in ("islice", "chain", "reduce", "count", "zip_longest", "groupby", "repeat"):
                 return ("builtin", mod.imports[n.id][1])
             if mod is not None and n.id in mod.imports and mod.imports[n.id][0] == "bisect" and mod.imports[n.id][1]:
                 import bisect as _bisect
@@ -1809,6 +1809,9 @@ class Interp:
             return acc
         if name == "count":
             return _Gen(range(args[0] if args else 0, (args[0] if args else 0) + 10000))
+        if name == "repeat":
+            # an endless repeat is cut at a length no consumer here reaches (zip stops at the shorter operand)
+            return _Gen([args[0]] * (args[1] if len(args) > 1 else 10000))
         if name == "zip_longest":
             import itertools as _it
             return list(_it.zip_longest(*[self.iterate(a) for a in args]))
